@@ -469,7 +469,11 @@ where
             let expiration_status = match self.in_flight_requests_mut().poll_expired(cx) {
                 // No need to send a response, since the client wouldn't be waiting for one
                 // anymore.
-                Poll::Ready(Some(_)) => Ready,
+                //
+                // Every expired request is forgotten before anything is read, so that a new
+                // request cannot be yielded (and a response written) while another expired
+                // request is still tracked.
+                Poll::Ready(Some(_)) => continue,
                 Poll::Ready(None) => Closed,
                 Poll::Pending => Pending,
             };
